@@ -141,6 +141,26 @@ let do_parse args =
     attempt (300 + 40 * List.length inp)
   | _ -> "BADARGS"
 
+let do_spec args =
+  match args with
+  | gid :: rule :: input :: _ ->
+    let g = Hashtbl.find grammars gid in
+    (match decode_str (unhex input) with
+     | None -> "BADUTF8"
+     | Some cs ->
+       let rec attempt fuel =
+         match s_parse_std g true (nat_of_int fuel) (unhex rule) cs with
+         | SFuel -> if fuel < 40000 then attempt (fuel * 8) else "FUEL"
+         | SStuck -> "STUCK"
+         | SOk (v, _, o, flog) -> Printf.sprintf "OK\t%s\t%d" (value_str v) (int_of_nat o)
+         | SFail flog ->
+           (match furthest_latest None flog with
+            | Some e -> Printf.sprintf "ERR\t%d\t%s" (int_of_nat e.e_pos) (spec_str e.e_spec)
+            | None -> "ERR\t-\tnolog")
+       in
+       attempt (300 + 40 * List.length cs))
+  | _ -> "BADARGS"
+
 let pretty args =
   match args with
   | [text; pos; _] ->
@@ -159,6 +179,7 @@ let () =
            | "pretty" :: args -> pretty args
            | ["grammar"; gid; sx] -> Hashtbl.replace grammars gid (grammar_of_sexp (Sexp.parse sx)); "SET"
            | "parse" :: args -> do_parse args
+           | "spec" :: args -> do_spec args
            | other :: _ -> "UNKNOWN\t" ^ other
            | [] -> "EMPTY"
          with
